@@ -13,7 +13,7 @@ pub struct C12;
 struct Case {
     lower: f64,
     upper: f64,
-    /// 0 ok, 1 unknown id, 2 binary kind, 3 continuous kind, 4 no bound, 5 lower=-inf, 6 upper=+inf, 7 both inf, 8 NaN, 9 no integer inside
+    /// 0 ok, 1 unknown id, 2 binary kind, 3 continuous kind, 4 no bound, 5 lower=-inf, 6 upper=+inf, 7 both inf, 8 NaN, 9 no integer inside, 10 inverted bound
     class: u8,
     others: u8,
     target_pos: u8,
@@ -178,7 +178,7 @@ fn check_case(case: &Case, ctx: &mut Ctx) -> PResult {
 }
 
 fn decode(t: &mut Tape, ctx: &mut Ctx) -> Case {
-    let class = if t.p(80) { 1 + t.choice(9) as u8 } else { 0 };
+    let class = if t.p(80) { 1 + t.choice(10) as u8 } else { 0 };
     let others = t.byte();
     let target_pos = t.byte();
     let frac = |t: &mut Tape| *t.pick(&[0.0, 0.5, 0.25, 0.999, 0.001, 0.75]);
@@ -226,12 +226,18 @@ fn decode(t: &mut Tape, ctx: &mut Ctx) -> Case {
             lower = k + 0.25;
             upper = k + 0.75;
         }
+        10 => {
+            // inverted bound: contains no integer (nothing at all)
+            let k = lower.floor();
+            lower = k + 3.0;
+            upper = k;
+        }
         _ => {}
     }
     Case { lower, upper, class, others, target_pos }
 }
 
-const CLASS_NAMES: [&str; 10] = ["ok", "unknown-id", "binary-kind", "continuous-kind", "no-bound", "lower=-inf", "upper=+inf", "both-infinite", "nan", "no-integer-inside"];
+const CLASS_NAMES: [&str; 11] = ["ok", "unknown-id", "binary-kind", "continuous-kind", "no-bound", "lower=-inf", "upper=+inf", "both-infinite", "nan", "no-integer-inside", "inverted-bound"];
 
 impl C12 {
     /// run the risky call in a child process: "an error, not a hang"
